@@ -392,7 +392,9 @@ def run(rep, tier):
 
 
 def replay(rp):
+    from vf.engines import v2x
     from vf.engines.v2x import Explorer
+    v2x.FEED_BACK[0] = bool(rp.get("feed_back"))
     ex = Explorer(rp["source"], lambda s, n: [], depth=0)
     node, outs = ex.replay([(tuple(a) if isinstance(a, list) else a, tuple(v)) for a, v in
                             [(tuple(h[0]), h[1]) for h in rp["history"]]])
